@@ -385,6 +385,10 @@ def run_plan(plan: Dict[str, Any], env=None) -> Dict[str, Any]:
     code_key = None       # K of a client that used the CORRECT code on the current exchange's latest M3
     last_m3_kind = "none"
     demo_elsewhere = False
+    # the ghost of the C01 theorems (Proofs/PairSetupOrigin.lean: Exch / demoA, goodM3), recomputed here from the wire
+    # with the reference SERVER formulas: open exchange = (code, salt, b) of the latest M2, demonstrating A
+    g_open: Optional[tuple] = None
+    g_demoA: Optional[bytes] = None
     viol: List[List[str]] = []
     kinds: List[str] = []
     outs: List[str] = []
@@ -547,6 +551,16 @@ def run_plan(plan: Dict[str, Any], env=None) -> Dict[str, Any]:
                                 and code_key is not None and m5_key == code_key)
             r = sc.send(body, salt, secret, conn=op["conn"], idents=idents)
             o = outputs(r)
+            # ---- the specification predicate "this request is an M3 carrying the proof expected for its A, A != 0 mod N,
+            # in the open exchange of an unpaired accessory", evaluated by the reference (never by pyhap / the model)
+            tq = pc.parse(body) or {}
+            ref_good = False
+            if (tq.get(pc.T_STATE) == b"\x03" and pc.T_PUBLIC_KEY in tq and pc.T_PROOF in tq and g_open is not None
+                    and not r["paired_before"] and ref.b2i(tq[pc.T_PUBLIC_KEY]) % ref.N != 0):
+                if len(g_open) == 3:   # v and B of this exchange, once
+                    v_ = pow(ref.G, ref.x_of(g_open[1], g_open[0]), ref.N)
+                    g_open = g_open + ((v_, ref.i2b((ref.k_mult() * v_ + pow(ref.G, g_open[2], ref.N)) % ref.N)),)
+                ref_good = ref.server_expected(g_open[0], g_open[1], g_open[2], tq[pc.T_PUBLIC_KEY], vB=g_open[3])[1] == tq[pc.T_PROOF]
             # ---- the oracle: exactly what C01 states
             if o["O1"] and not is_demo:
                 viol.append([
@@ -577,6 +591,7 @@ def run_plan(plan: Dict[str, Any], env=None) -> Dict[str, Any]:
             t = _parse(r) or {}
             if t.get(pc.T_STATE) == b"\x02" and pc.T_ERROR not in t and pc.T_SALT in t and pc.T_PUBLIC_KEY in t:
                 cur = (t[pc.T_SALT], t[pc.T_PUBLIC_KEY])
+                g_open, g_demoA = (code, t[pc.T_SALT], ref.b2i(secret)), None
                 xch += 1
                 consumed = False
                 demo_elsewhere = demo_elsewhere or demo
@@ -590,7 +605,12 @@ def run_plan(plan: Dict[str, Any], env=None) -> Dict[str, Any]:
                 # new, M3 or M5) counts for "this very exchange" until the accessory issues a new M2.
                 consumed, demo_elsewhere = True, demo_elsewhere or demo
                 demo, cur, code_key, good_client = False, None, None, None
+                g_open, g_demoA = None, None
                 xch += 1
+            elif ref_good and not (t.get(pc.T_STATE) == b"\x02" and pc.T_ERROR not in t):
+                g_demoA = tq[pc.T_PUBLIC_KEY]
+            sc.results[-1]["ghost"] = {"good": ref_good, "exch": None if g_open is None else hx(g_open[1]),
+                                       "demoA": None if g_demoA is None else hx(g_demoA)}
             kinds.append(kind)
             outs.append(_outcome(r, t, o))
         return {"line": sc.model_line(), "impl": sc.impl_view(), "viol": viol, "kinds": kinds, "outs": outs,
@@ -692,7 +712,9 @@ def run(ctx: Ctx):
     rng = ctx.rng
     st.rule = (
         "streams: script (request sequences over the C01 menu on one accessory, 1-2 connections, real crypto; per op "
-        "HTTP status, content type, body bytes, pairing_changed, paired_clients compared with PairSetup.lean) and numeric "
+        "HTTP status, content type, body bytes, pairing_changed, paired_clients compared with PairSetup.lean; plus the "
+        "SPECIFICATION side of the theorems — goodM3 of each request and the ghost (open exchange, demonstrating A) — compared "
+        "with the same notions recomputed from the wire by the reference server formulas) and numeric "
         "(hsrp.Server on A = 0 mod N vs Srp.lean).  A script is non-trivial if some request reaches a refusing or "
         "state-changing branch of the handler (all non-empty scripts do); distinct by the request bodies."
     )
@@ -745,7 +767,7 @@ def run(ctx: Ctx):
     for ln, m, i, tag in zip(lines, model, impl, tags):
         st.traces_validated += 1
         if tag[0] == "script":
-            mv = pe.model_view(m)
+            mv = pe.model_view(m, ghost=True)
         else:
             mv = {k: m.get(k) for k in i} if "err" not in i else m
         if mv != i:
@@ -753,7 +775,7 @@ def run(ctx: Ctx):
 
     for n in (0, 20, len(plans) - 1):
         st.sample({"script": results[n]["kinds"], "impl": results[n]["outs"],
-                   "model_agrees": pe.model_view(model[n]) == impl[n], "oracle": results[n]["viol"] or "ok"})
+                   "model_agrees": pe.model_view(model[n], ghost=True) == impl[n], "oracle": results[n]["viol"] or "ok"})
 
 
 def _diff(m, i):
